@@ -176,6 +176,11 @@ def run(db, chk):
     chk.absorb(db, "C09", {"C09-P2"}, "C08-B5", "index scratch of the basin graph is reset at every update (shared "
                "with C09-P2): positions left by a previous update index past the end of the edge list",
                pred=lambda o: "basin_graph" in o["instance"], min_instances=20)
+    chk.absorb(db, "C10", {"C10-X1", "C10-X2"}, "C08-B6", "parallel regions write shared tables only at block-derived "
+               "indices (shared with C10-X1 / X2): a lost donor registration leaves the traversal orders incomplete "
+               "and the breadth-first pass runs past its buffers", min_instances=14)
+    chk.absorb(db, "C18", {"C18-M3"}, "C08-B7", "the per-node area buffer of a mesh has one entry per node, isolated "
+               "nodes included (shared with C18-M3)", min_instances=4)
     # ---- B3
     resize_safe = {}
     for fn in db.fns(POOL + "::resize"):
